@@ -587,10 +587,9 @@ package server
 //@   loop 4 invariant len(locations) == atloop(1, len(locations)) + ite(includeDeclaration, cntDirAcc(journal.Directives, len(journal.Directives), name), 0) + cntTxAcc(journal.Transactions, i, name) + cntAcc(journal.Transactions[i].Postings, rangeindex + 1, name)
 //@   loop 4 decreases len(journal.Transactions[i].Postings) - rangeindex
 // References to a commodity: within every journal exactly the occurrences add a location - each commodity directive
-// that declares the symbol (when asked) and each posting whose amount is in it. (Costs and balance assertions are not
-// searched by the code: see undecided C09.)
-//@ pred JComOK(j) := j != nil && (forall i int, k int :: {j.Transactions[i].Postings[k]} 0 <= i && i < len(j.Transactions) && 0 <= k && k < len(j.Transactions[i].Postings) && j.Transactions[i].Postings[k].Amount != nil && j.Transactions[i].Postings[k].Amount.Commodity.Symbol != "" ==> RngOK(j.Transactions[i].Postings[k].Amount.Commodity.Range)) && (forall d int :: {j.Directives[d]} 0 <= d && d < len(j.Directives) && typeis(j.Directives[d], "ast.CommodityDirective") && as(j.Directives[d], "ast.CommodityDirective").Commodity.Symbol != "" ==> RngOK(as(j.Directives[d], "ast.CommodityDirective").Commodity.Range))
-//@ specdef cntCom(ps []ast.Posting, j int, sym string) int := ite(j <= 0, 0, cntCom(ps, j - 1, sym) + ite(ps[j - 1].Amount != nil && ps[j - 1].Amount.Commodity.Symbol == sym, 1, 0))
+// that declares the symbol (when asked) and each use in a posting: its amount, its cost and its balance assertion.
+//@ pred JComOK(j) := j != nil && (forall i int, k int :: {j.Transactions[i].Postings[k]} 0 <= i && i < len(j.Transactions) && 0 <= k && k < len(j.Transactions[i].Postings) ==> (j.Transactions[i].Postings[k].Amount != nil && j.Transactions[i].Postings[k].Amount.Commodity.Symbol != "" ==> RngOK(j.Transactions[i].Postings[k].Amount.Commodity.Range)) && (j.Transactions[i].Postings[k].Cost != nil && j.Transactions[i].Postings[k].Cost.Amount.Commodity.Symbol != "" ==> RngOK(j.Transactions[i].Postings[k].Cost.Amount.Commodity.Range)) && (j.Transactions[i].Postings[k].BalanceAssertion != nil && j.Transactions[i].Postings[k].BalanceAssertion.Amount.Commodity.Symbol != "" ==> RngOK(j.Transactions[i].Postings[k].BalanceAssertion.Amount.Commodity.Range))) && (forall d int :: {j.Directives[d]} 0 <= d && d < len(j.Directives) && typeis(j.Directives[d], "ast.CommodityDirective") && as(j.Directives[d], "ast.CommodityDirective").Commodity.Symbol != "" ==> RngOK(as(j.Directives[d], "ast.CommodityDirective").Commodity.Range))
+//@ specdef cntCom(ps []ast.Posting, j int, sym string) int := ite(j <= 0, 0, cntCom(ps, j - 1, sym) + ite(ps[j - 1].Amount != nil && ps[j - 1].Amount.Commodity.Symbol == sym, 1, 0) + ite(ps[j - 1].Cost != nil && ps[j - 1].Cost.Amount.Commodity.Symbol == sym, 1, 0) + ite(ps[j - 1].BalanceAssertion != nil && ps[j - 1].BalanceAssertion.Amount.Commodity.Symbol == sym, 1, 0))
 //@ specdef cntTxCom(ts []ast.Transaction, i int, sym string) int := ite(i <= 0, 0, cntTxCom(ts, i - 1, sym) + cntCom(ts[i - 1].Postings, len(ts[i - 1].Postings), sym))
 //@ specdef cntDirCom(ds []ast.Directive, i int, sym string) int := ite(i <= 0, 0, cntDirCom(ds, i - 1, sym) + ite(typeis(ds[i - 1], "ast.CommodityDirective") && as(ds[i - 1], "ast.CommodityDirective").Commodity.Symbol == sym, 1, 0))
 //@ func findCommodityReferences
